@@ -770,6 +770,12 @@ class SumGrader(SummationGraderBase):
         if abs(upper) != float('inf') and int(upper) != upper:
             raise SummationError('Upper summation limit does not evaluate to an integer.')
 
+        # Make sure that the summand only uses names that are available to it, even
+        # if the range of summation turns out to be empty (the summand is then never evaluated)
+        summand_scope = varscope.copy()
+        summand_scope[summation_var] = 0
+        parse(summand_str).check_scope(summand_scope, funcscope, self.suffixes)
+
         def eval_summand(x):
             """
             Helper function to evaluate the summand at the given value of the
